@@ -88,6 +88,9 @@ pub fn shapes(th: bool) -> Vec<Shape> {
     // 4096-byte sectors: the maximal FAT32 cluster count and a FAT larger than 512 MiB (quick tier: two free sets each)
     v.push(Shape { name: "s4096-maxclusters", bps: 4096, spc: 1, clusters: 0x0FFF_FFF5 });
     v.push(Shape { name: "s4096-bigfat", bps: 4096, spc: 1, clusters: 0x0800_0001 });
+    // 4096-byte sectors x 16 sectors per cluster, maximised under the 32-bit sector count: 16 TiB, byte offsets up to 2^44
+    // (every other shape stays below 2^41: a byte offset computed through a 32-bit count of 512-byte units shows only here)
+    v.push(Shape { name: "s4096x16-maxsectors", bps: 4096, spc: 16, clusters: 0 });
     v
 }
 
